@@ -274,7 +274,7 @@ def _wrap_outer_match(base):
         S.last_match = None
         out = orig(self, unmatched_instance_pair, *a, **k)
         lm = S.last_match
-        if too_big(in_pred):
+        if in_pred.size > 40_000_000:
             S.ctx.count("skipped_size")
             return out
         if lm is None:
@@ -310,13 +310,20 @@ def check_relabelling(matcher, in_pred, in_ref, M, out):
     if max_ref + n_unmatched > 65535:
         ctx.count("f:C04.fresh_past_65535")
     det = {"M": M, "in_pred": in_pred, "in_ref": in_ref, "out_pred": out_pred, "out_ref": out_ref, "matcher": matcher_desc(matcher)}
-    if out_ref.shape != in_ref.shape or not np.array_equal(out_ref.astype(object), in_ref.astype(object)):
+    big = in_pred.size > MAX_VOX  # numpy-only paths for big volumes (labels of instance maps are unsigned)
+    if out_ref.shape != in_ref.shape or not (np.array_equal(out_ref.astype(np.uint64), in_ref.astype(np.uint64)) if big and out_ref.dtype.kind == "u" and in_ref.dtype.kind == "u"
+                                             else np.array_equal(out_ref.astype(object), in_ref.astype(object))):
         ctx.viol("reference_changed", det, prop="C04", features=feats)
         return
     if out_pred.shape != in_pred.shape or not np.array_equal(out_pred != 0, in_pred != 0):
         ctx.viol("prediction_foreground_changed", det, prop="C04", features=feats)
         return
-    pairs = set(zip(in_pred.ravel().tolist(), out_pred.ravel().tolist()))
+    if big and out_pred.dtype.kind == "u" and in_pred.dtype.kind == "u":
+        fg = in_pred != 0
+        u = np.unique(np.stack([in_pred[fg].astype(np.uint64), out_pred[fg].astype(np.uint64)], axis=1), axis=0)
+        pairs = set((int(a), int(b)) for a, b in u.tolist())
+    else:
+        pairs = set(zip(in_pred.ravel().tolist(), out_pred.ravel().tolist()))
     pairs.discard((0, 0))
     fwd: dict = {}
     for i, o in pairs:
